@@ -12,6 +12,9 @@ def collect():
     consts = []   # (name, lean type, lean value, comment)
     from electrumx.lib.hash import HASHX_LEN
     consts.append(('hashXLen', 'Nat', str(HASHX_LEN), 'electrumx.lib.hash.HASHX_LEN'))
+    from electrumx.server.history import History
+    consts.append(('maxHistRowEntries', 'Nat', str(History().max_hist_row_entries),
+                   'electrumx.server.history.History().max_hist_row_entries'))
     # --- C19 (peers)
     import electrumx.server.peers as _peers_mod
     from harness import peers_env
